@@ -5,7 +5,7 @@ VERIF = os.path.dirname(os.path.dirname(os.path.abspath(__file__)))
 REPO = os.environ.get("VERIF_REPO", "/repo")
 VENDOR = os.path.join(VERIF, ".vendor")
 CACHE = os.path.join(VERIF, ".cache")
-EVIDENCE = os.path.join(VERIF, "evidence")
+EVIDENCE = os.environ.get("VERIF_EVIDENCE") or os.path.join(VERIF, "evidence")   # VERIF_EVIDENCE: side runs (dev, seed / benign evaluation) write elsewhere
 LOGS = os.path.join(EVIDENCE, "logs")
 REPLAY = os.path.join(EVIDENCE, "replay")
 SCRATCH_ROOT = os.environ.get("VERIF_SCRATCH", "/tmp/mverif")
